@@ -29,6 +29,7 @@ RULE = (
     'copy(slot 0 -> slot 1 with the other variant\'s data), gc, flood(130 objects)}; probe class with weak_lru_cache(maxsize=2): 2 slots depth 7 and 3 slots depth 5 (quick: '
     '6/4); real classes Transitions, Jumps, TrajectoryMetrics (and the Collective returned by Jumps.collective), call menu = '
     'listed methods + every further method found memoised on the tree under test: 2 slots depth 4 (thorough 5; the split-based statistics of Jumps only in the thorough tier); Jumps objects of a variant share one Transitions and differ in minimal_residence; metrics objects also through Trajectory.metrics(); state = (slot contents and origin new/copy, calls made, cache_info of every cache)'
+    '; menus include calls with the same value under different keyword names and calls that raise; memoised methods are recognised by the wrapper defined in gemdat/caching.py (functools.lru_cache statistics are part of the state only when present)'
 )
 LEVEL_TEXT = (
     'Explicit-state model checking of the memoisation layer: every interleaving of creating, querying with '
